@@ -108,6 +108,13 @@ def run_check(prop, tier, seed, replay=None):
     forbidden = common.grep_forbidden()
     if forbidden:
         ctx.tie_breaks.append("forbidden tokens in Lean sources: %s" % forbidden[:5])
+    # thorough tier: the compiled property module is re-checked by the toolchain's independent checker
+    ctx.stats["leanchecker"] = "not run (quick tier)"
+    if ok_build and tier == "thorough" and not replay:
+        rc, out, err, dt = common.run(["lake", "env", "leanchecker"] + list(mod.LEAN_TARGETS), cwd=common.LEAN_DIR, timeout=1800)
+        ctx.stats["leanchecker"] = "ok (%.0fs)" % dt if rc == 0 else "FAILED rc=%d" % rc
+        if rc != 0:
+            ctx.tie_breaks.append("leanchecker rejects %s: %s" % (mod.LEAN_TARGETS, (out + err)[-300:]))
 
     violations = []
     known_lines = []
@@ -200,6 +207,7 @@ def run_check(prop, tier, seed, replay=None):
         "tie_breaks": ctx.tie_breaks[:20],
         "generated_tables_changed": bool(summary.get("tables_changed")) if isinstance(summary, dict) else None,
         "known_findings_reported": sorted(reported_known),
+        "leanchecker": ctx.stats.get("leanchecker"),
     }
     common.write_evidence(prop, tier, seed, cov, list(getattr(mod, "ASSUMPTIONS", [])), time.time() - t0, nviol)
     print("%s tier=%s seed=%s theorems=%d/%d corr_cases=%s evaluations=%s violations=%d wall=%.1fs" % (
